@@ -131,6 +131,36 @@ func gen(r *harn.Rng, tier string) interface{} {
 		}
 		return sc
 	}
+	if r.Bool(0.12) {
+		// growth steps that are not a doubling (clamp to the size limit, or the 5/4 steps above
+		// 128 KiB) crossed while the data is wrapped around the ring end
+		big := r.Bool(0.3)
+		unit := r.Pick(500, 700, 900)
+		if big {
+			unit = r.Pick(30000, 40000, 60000)
+			sc.Ops = append(sc.Ops, op{Kind: "ls", N: r.Pick(0, 0, 200000, 300000)})
+		} else {
+			sc.Ops = append(sc.Ops, op{Kind: "ls", N: r.Pick(2500, 3000, 5000, 2049, 4100)})
+		}
+		k := r.Range(2, 5)
+		for i := 0; i < k; i++ {
+			sc.Ops = append(sc.Ops, op{Kind: "w", N: unit + r.Range(-3, 3)})
+		}
+		for i := 0; i < k-1; i++ {
+			sc.Ops = append(sc.Ops, op{Kind: "r", N: 65535})
+		}
+		for i, m := 0, r.Range(2, 8); i < m; i++ {
+			sc.Ops = append(sc.Ops, op{Kind: "w", N: unit + r.Range(-3, 3)})
+			if r.Bool(0.3) {
+				sc.Ops = append(sc.Ops, op{Kind: "r", N: 65535})
+			}
+		}
+		for i := 0; i < 6; i++ {
+			sc.Ops = append(sc.Ops, op{Kind: "r", N: 65535})
+		}
+		// reads on an empty buffer are skipped by the executor
+		return sc
+	}
 	n := r.Range(3, 70)
 	if tier == "thorough" && r.Bool(0.3) {
 		n = r.Range(70, 400)
